@@ -127,7 +127,7 @@ class Gen:
 
     def stmt(self, sc, depth, in_loop, in_func):
         r = self.r
-        k = r.randrange(28)
+        k = r.randrange(30)
         cur = sc[-1]
         ints = self.visible(sc, lambda t: t == "int")
         if depth >= self.max_depth and k in (8, 9, 10, 11, 14, 15, 16): k = 0
@@ -262,6 +262,20 @@ class Gen:
                 out.append(["expr", ["call", ["v", "log"], [["call", ["v", f], [self.int_expr(sc) for _ in range(explicit)], ["v", arr]]], "-"]])
             cur[arr] = "arr:%d" % n
             return out
+        if k in (28, 29):
+            # two closures made from one function literal (each with its own captured variable) calling each other,
+            # in tail position and not: the callee runs with its own captured variables
+            self.count("sibling-closures")
+            mk, tag, step, n, other, a, b = self.fresh("mk"), self.fresh("tg"), self.fresh("st"), self.fresh("n"), self.fresh("ot"), self.fresh("ca"), self.fresh("cb")
+            rec = ["call", ["v", other], [["bin", "sub", ["v", n], ["i", "1"]], ["v", step]], "-"]
+            tail = ["ret", rec] if k == 28 else ["ret", ["bin", "add", rec, ["i", "0"]]]
+            body = [["if", ["bin", "le", ["v", n], ["i", "0"]], [["ret", ["v", tag]]], []],
+                    ["opset", tag, "add", ["i", "100"]], tail]
+            e1, e2 = self.int_expr(sc), self.int_expr(sc)
+            calls = [["expr", ["call", ["v", "log"], [["call", ["v", x], [["i", str(d)], ["v", y]], "-"]], "-"]]
+                     for (x, y, d) in [(a, b, 0), (a, b, 1), (a, b, 2), (b, a, 1), (b, a, 3), (a, a, 2)]]
+            return [["def", mk, ["func", [tag], "0", [["var", step, "-"], ["set", step, ["func", [n, other], "0", body]], ["ret", ["v", step]]]]],
+                    ["def", a, ["call", ["v", mk], [e1], "-"]], ["def", b, ["call", ["v", mk], [e2], "-"]]] + calls
         if k in (26, 27):
             # a constant, and the same name declared again by a parameter, a local of a block or a loop variable further in:
             # read there in unary and binary expressions, as a call argument and as a constant's initialiser
